@@ -222,3 +222,27 @@ Proof.
   intros seed1 seed2 n1 n2 a b H Ha Hb.
   apply issue_bounds in Ha. apply issue_bounds in Hb. lia.
 Qed.
+
+(* ---------- the id counter as the code seeds it (GenTimeCounter: generated from timecounter.go) ---------- *)
+From DT Require Import GenTimeCounter.
+
+(* the seed of a manager created at nanosecond t of the node's clock *)
+Definition seed_at (t_ns : N) : N := (t_ns * tc_ticks_per_second / 1000000000)%N.
+
+(* a manager created at t2 >= t1 starts above every id of the manager created at t1, provided the
+   earlier one issued no more ids than nanoseconds elapsed between the two (one id per
+   nanosecond is out of reach); this needs the seeding clock to tick once per nanosecond and
+   next() to add exactly one *)
+Theorem later_manager_starts_above_ns :
+  forall t1 t2 n1 n2 a b,
+    (t1 <= t2)%N -> (N.of_nat n1 <= t2 - t1)%N -> tc_increment = 1%N ->
+    In a (issue (seed_at t1) n1) -> In b (issue (seed_at t2) n2) -> (a < b)%N.
+Proof.
+  intros t1 t2 n1 n2 a b Ht Hn _ Ha Hb.
+  assert (S : forall t, seed_at t = t).
+  { intros t. unfold seed_at, tc_ticks_per_second. apply N.div_mul. discriminate. }
+  rewrite S in Ha, Hb. eapply later_manager_starts_above; [|exact Ha|exact Hb]. lia.
+Qed.
+
+Theorem counter_increment_is_one : tc_increment = 1%N.
+Proof. reflexivity. Qed.
